@@ -135,13 +135,16 @@ template<size_t L> struct Obj
    }
 };
 
-template<size_t L> std::string run(const std::vector<std::string>& w)
+// L = capacity of the object, S = capacity of the other object (each lives in its own exact-size heap block)
+template<size_t L, size_t S> std::string run(const std::vector<std::string>& w)
 {
    using FS = celma::common::FixedString<L>;
+   using FSo = celma::common::FixedString<S>;
    using CIt = typename FS::const_iterator;
    const bool D = w[1] == "D";
    nulSeen() = false;
-   Obj<L> F, O;
+   Obj<L> F;
+   Obj<S> O;
    {
       CStr a(w[3]), b(w[4]);
       F.construct(a.p);
@@ -155,7 +158,7 @@ template<size_t L> std::string run(const std::vector<std::string>& w)
       const std::string& n = a[0];
       if (g_step) *g_step = static_cast<int>(wi - 5);
       FS& f = *F.p;
-      FS& o = *O.p;
+      FSo& o = *O.p;
       std::string s, os;          // std::string mirrors (mode D)
       if (D) { s = f.str(); os = o.str(); }
       const size_t len = f.length();
@@ -175,8 +178,12 @@ template<size_t L> std::string run(const std::vector<std::string>& w)
          else if (n == "asg_fs") { STD(s.assign(os)); f.assign(o); }
          else if (n == "ctor_c") { CStr c(a[1]); STD(s = std::string(c.p)); F.construct(c.p); }
          else if (n == "ctor_s") { std::string x = ustr(a[1]); STD(s = x); F.construct(x); }
-         else if (n == "ctor_mv") { STD(s = os); F.construct(std::move(o)); }
-         else if (n == "ctor_cp") { STD(s = os); F.construct(static_cast<const FS&>(o)); }
+         // operations that exist only between objects of the same type are "ood" for different capacities
+#define SAME_ONLY(...) do { if constexpr (L == S) { __VA_ARGS__; } else { throw OutOfDomain{}; } } while (0)
+         else if (n == "ctor_mv") { SAME_ONLY(STD(s = os); F.construct(std::move(o))); }
+         else if (n == "ctor_cp") { SAME_ONLY(STD(s = os); F.construct(static_cast<const FS&>(o))); }
+         // the converting constructor FixedString( const FixedString< S>&) is chosen only for S != L
+         else if (n == "ctor_fs") { if constexpr (L != S) { STD(s = os); F.construct(static_cast<const FSo&>(o)); } else { throw OutOfDomain{}; } }
          else if (n == "ins_nc") { size_t i = num(a[1]), c = num(a[2]); char ch = chr(a[3]); REQ(c <= BIG); STD(s.insert(i, c, ch)); f.insert(i, c, ch); }
          else if (n == "ins_pc") { size_t i = num(a[1]); CStr c(a[2]); size_t k = num(a[3]); REQ(k <= c.n); if (k > c.n + 1) throw OutOfDomain{}; if (k > c.n) nulSeen() = true; STD(s.insert(i, c.p, k)); f.insert(i, c.p, k); }
          else if (n == "ins_c") { size_t i = num(a[1]); CStr c(a[2]); STD(s.insert(i, c.p)); f.insert(i, c.p); }
@@ -204,7 +211,7 @@ template<size_t L> std::string run(const std::vector<std::string>& w)
          else if (n == "app_pc") { CStr c(a[1]); size_t k = num(a[2]); REQ(k <= c.n); STD(s.append(c.p, k)); f.append(c.p, k); }
          else if (n == "app_c") { CStr c(a[1]); STD(s.append(c.p)); f.append(c.p); }
          else if (n == "app_it") { size_t p = num(a[1]), q = num(a[2]); if (!(p <= q && q <= olen)) throw OutOfDomain{};
-                                   STD(s.append(os.begin() + p, os.begin() + q)); f.append(CIt(&o, p), CIt(&o, q)); }
+                                   SAME_ONLY(STD(s.append(os.begin() + p, os.begin() + q)); f.append(CIt(&o, p), CIt(&o, q))); }
          else if (n == "sprintf") { std::string x = ustr(a[1]); STD(s = std::string(x.c_str())); f.sprintf("%s", x.c_str()); }
          else if (n == "sprintf_lc" || n == "sprintf_wide")
          {
@@ -232,7 +239,7 @@ template<size_t L> std::string run(const std::vector<std::string>& w)
          else if (n == "rep_c") { size_t p = num(a[1]), c = num(a[2]); CStr x(a[3]); STD(s.replace(p, c, x.p)); f.replace(p, c, x.p); }
          else if (n == "rep_pc") { size_t p = num(a[1]), c = num(a[2]); CStr x(a[3]); size_t c2 = num(a[4]); REQ(c2 <= x.n); STD(s.replace(p, c, x.p, c2)); f.replace(p, c, x.p, c2); }
          else if (n == "rep_nc") { size_t p = num(a[1]), c = num(a[2]), c2 = num(a[3]); char ch = chr(a[4]); REQ(c2 <= BIG); STD(s.replace(p, c, c2, ch)); f.replace(p, c, c2, ch); }
-         else if (n == "swap") { STD(std::swap(s, os)); f.swap(o); swapped = true; }
+         else if (n == "swap") { SAME_ONLY(STD(std::swap(s, os)); f.swap(o); swapped = true); }
          else if (n == "clear") { STD(s.clear()); f.clear(); }
          // ---------------- observers
          else if (n == "cmp_fs") { STD(rS = sgn(s.compare(os))); rF = sgn(f.compare(o)); }
@@ -328,7 +335,7 @@ template<size_t L> std::string run(const std::vector<std::string>& w)
                else if (fam == "flo") { r = f.find_last_of call_f; if (D) q = s.find_last_of call_s; } \
                else if (fam == "flno") { r = f.find_last_not_of call_f; if (D) q = s.find_last_not_of call_s; } \
                else return std::string("unsupported-op:") + n; } while (0)
-            if (ov == "fs") { REQ(olen > 0); FAM((o, pos), (os, pos)); }
+            if (ov == "fs") { if constexpr (L == S) { REQ(olen > 0); FAM((o, pos), (os, pos)); } else { throw OutOfDomain{}; } }
             else if (ov == "s") { std::string x = ustr(a[1]); REQ(!x.empty()); FAM((x, pos), (x, pos)); }
             else if (ov == "pc") { CStr c(a[1]); size_t k = num(a[2]); REQ(k > 0 && k <= c.n && pos < len); if (k > c.n + 1) throw OutOfDomain{}; FAM((c.p, pos, k), (c.p, pos, k)); }
             else if (ov == "c") { CStr c(a[1]); REQ(c.n > 0); FAM((c.p, pos), (c.p, pos)); }
@@ -347,7 +354,7 @@ template<size_t L> std::string run(const std::vector<std::string>& w)
       {
          const std::string cF = vf::hex(F.p->str());
          const std::string cS = vf::hex(s.substr(0, L));
-         if (swapped) { rF = "o=" + vf::hex(O.p->str()); rS = "o=" + vf::hex(os.substr(0, L)); }
+         if (swapped) { rF = "o=" + vf::hex(O.p->str()); rS = "o=" + vf::hex(os.substr(0, S)); }
          prop += rF + ";" + cF + "|" + rS + ";" + cS + "|" + ((rF == rS && cF == cS) ? "eq" : "NE") + ";" + F.verdict();
       } else
       {
